@@ -164,16 +164,17 @@ Lemma hmat_sysloc_shape md s lt dt mts unit ni nt bs e :
   hmat_addition md s (SL [SA 2; SA lt; SA dt; SA mts; SA unit; SA ni; SA nt; SL bs]) = Some e ->
   exists sl cnt, mul_m md U64 ni nt = Some cnt /\
     hm_len (sl_inits sl) = ni /\ hm_len (sl_targets sl) = nt /\ hm_len (sl_entries sl) = cnt /\
-    a_claimed e = sysloc_len sl /\ a_bytes e = sysloc_bytes sl.
+    a_claimed e = sysloc_len sl /\ a_bytes e = sysloc_bytes sl /\ sysloc_len sl < 2 ^ 32.
 Proof.
   cbn [hmat_addition]. intros H.
   destruct (sysloc_new md lt dt mts unit ni nt) as [sl0|] eqn:E0; [|discriminate H]. cbn [option_bind] in H.
   destruct (sysloc_builders sl0 bs) as [sl|] eqn:E1; [|discriminate H]. cbn [option_bind] in H.
+  destruct (N.ltb_spec (sysloc_len sl) U32) as [Hl32|_]; [|discriminate H]. cbn [assert option_bind] in H.
   apply hm_Some_inj in H. subst e. cbn [hmat_add a_bytes a_claimed].
   unfold sysloc_new in E0. destruct (mul_m md U64 ni nt) as [cnt|] eqn:Em; [|discriminate E0]. cbn [option_bind] in E0.
   apply hm_Some_inj in E0. destruct (sysloc_builders_shape _ _ _ E1) as (A & B & C). subst sl0.
   cbn [sl_inits sl_targets sl_entries] in A, B, C. rewrite length_repeatN in A, B, C.
-  exists sl, cnt. unfold hm_len. rewrite A, B, C, !N2Nat.id. repeat split; reflexivity.
+  exists sl, cnt. unfold hm_len. rewrite A, B, C, !N2Nat.id. repeat split; try reflexivity. exact Hl32.
 Qed.
 
 Lemma sysloc_spine sl :
@@ -192,7 +193,7 @@ Lemma hmat_sysloc_exact md s lt dt mts unit ni nt bs e :
   field_at (a_bytes e) 16 4 = nt /\
   N.of_nat (length (a_bytes e)) = 32 + 4 * ni + 4 * nt + 2 * (ni * nt).
 Proof.
-  intros H Hfit. destruct (hmat_sysloc_shape _ _ _ _ _ _ _ _ _ _ H) as (sl & cnt & Hm & Hi & Ht & He & _ & Hb).
+  intros H Hfit. destruct (hmat_sysloc_shape _ _ _ _ _ _ _ _ _ _ H) as (sl & cnt & Hm & Hi & Ht & He & _ & Hb & Hl32).
   rewrite Hb in *. rewrite <- (sysloc_bytes_length sl) in *.
   assert (Hlen : sysloc_len sl = 32 + 4 * ni + 4 * nt + 2 * cnt) by (unfold sysloc_len; rewrite Hi, Ht, He; lia).
   change (2 ^ 32) with 4294967296 in Hfit.
@@ -215,59 +216,26 @@ Proof.
   destruct (N.ltb_spec (ni * nt) U64) as [Hlt|_]; [unfold U64 in Hlt; lia|]. reflexivity.
 Qed.
 
-(* FINDING.  The System Locality length (and count) narrowings are not refused: with `ni` initiators, no target and no
-   builder call the addition is accepted in both profiles, the structure occupies 32 + 4 * ni bytes, and its length dword
-   and initiator-count dword hold those numbers modulo 2^32; on a fresh table the whole step is accepted as long as the
-   wrapped length still fits the table length. *)
-Definition hw_wide (ni : N) : sx := SL [SA 2; SA 0; SA 0; SA 0; SA 1; SA ni; SA 0; SL []].
-
-Lemma hmat_sysloc_wide md s ni :
-  exists e, hmat_addition md s (hw_wide ni) = Some e /\
-    N.of_nat (length (a_bytes e)) = 32 + 4 * ni /\
-    field_at (a_bytes e) 4 4 = (32 + 4 * ni) mod 2 ^ 32 /\
-    field_at (a_bytes e) 12 4 = ni mod 2 ^ 32 /\
-    a_claimed e = 32 + 4 * ni.
+(* The System Locality length and count narrowings are guarded (assert!(self.len() <= u32::MAX) in the serialiser, added by the
+   repair 2e6aec4; before it the structure was accepted in both profiles and its length / initiator-count dwords held the true
+   values modulo 2^32): a structure of 2^32 bytes or more is refused in both profiles *)
+Lemma hmat_sysloc_refuses md s lt dt mts unit ni nt bs :
+  ni * nt < 2 ^ 64 -> 2 ^ 32 <= 32 + 4 * ni + 4 * nt + 2 * (ni * nt) ->
+  hmat_addition md s (SL [SA 2; SA lt; SA dt; SA mts; SA unit; SA ni; SA nt; SL bs]) = None.
 Proof.
-  destruct (hmat_addition md s (hw_wide ni)) as [e|] eqn:E.
-  - exists e. split; [reflexivity|].
-    destruct (hmat_sysloc_shape _ _ _ _ _ _ _ _ _ _ E) as (sl & cnt & Hm & Hi & Ht & He & Hc & Hb).
-    assert (Hcnt : cnt = 0).
-    { unfold mul_m in Hm. rewrite N.mul_0_r in Hm. change (0 <? U64) with true in Hm. now apply hm_Some_inj in Hm. }
-    assert (Hlen : sysloc_len sl = 32 + 4 * ni) by (unfold sysloc_len; rewrite Hi, Ht, He, Hcnt; lia).
-    rewrite Hc, Hb, <- (sysloc_bytes_length sl), sysloc_spine, Hi, Hlen.
-    split; [reflexivity|]. split; [|split; [|reflexivity]].
-    + wf_fa_skip. apply wf_field_at_here.
-    + wf_fa_skip. apply wf_field_at_here.
-  - exfalso. unfold hw_wide in E. cbn [hmat_addition] in E. unfold sysloc_new, mul_m in E. rewrite N.mul_0_r in E.
-    change (0 <? U64) with true in E. cbn [option_bind sysloc_builders] in E. discriminate E.
+  intros Hp Hbig.
+  destruct (hmat_addition md s (SL [SA 2; SA lt; SA dt; SA mts; SA unit; SA ni; SA nt; SL bs])) as [e|] eqn:E; [|reflexivity].
+  exfalso. destruct (hmat_sysloc_shape _ _ _ _ _ _ _ _ _ _ E) as (sl & cnt & Hm & Hi & Ht & He & _ & _ & Hl32).
+  assert (Hc : cnt = ni * nt).
+  { unfold mul_m in Hm. destruct (N.ltb_spec (ni * nt) U64) as [_|Hge]; [now apply hm_Some_inj in Hm|].
+    unfold U64 in Hge. lia. }
+  unfold sysloc_len in Hl32. rewrite Hi, Ht, He, Hc in Hl32. lia.
 Qed.
 
-Lemma hmat_sysloc_wide_step md c s0 ni : hmat_new c = Some s0 -> (32 + 4 * ni) mod 2 ^ 32 + 40 < 2 ^ 32 ->
-  hmat_step md s0 (hw_wide ni) <> None.
-Proof.
-  intros Hn Hfit. destruct (hmat_new_shape _ _ Hn) as [h ->].
-  destruct (hmat_sysloc_wide md (tbl_new KHmat h []) ni) as (e & He & _ & _ & _ & Hc).
-  unfold hmat_step, add_step. rewrite He. cbn [option_bind]. unfold tbl_add. rewrite Hc.
-  change (t_len (tbl_new KHmat h [])) with 40. change (t_kind (tbl_new KHmat h [])) with KHmat. cbv iota.
-  unfold add_m, cast, U32. apply N.ltb_lt in Hfit. rewrite Hfit. cbn [option_bind]. discriminate.
-Qed.
-
-(* the smallest witnesses of this shape: 2^30 initiators (a structure of 2^32 + 32 bytes whose length dword says 32), and
-   2^32 initiators (whose initiator-count dword says 0); both histories are accepted in both profiles *)
-Theorem hmat_sysloc_not_refused md c s0 : hmat_new c = Some s0 ->
-  (exists e, hmat_addition md s0 (hw_wide (2 ^ 30)) = Some e /\
-     N.of_nat (length (a_bytes e)) = 2 ^ 32 + 32 /\ field_at (a_bytes e) 4 4 = 32 /\ hmat_step md s0 (hw_wide (2 ^ 30)) <> None) /\
-  (exists e, hmat_addition md s0 (hw_wide (2 ^ 32)) = Some e /\
-     N.of_nat (length (a_bytes e)) = 2 ^ 34 + 32 /\ field_at (a_bytes e) 12 4 = 0 /\ hmat_step md s0 (hw_wide (2 ^ 32)) <> None).
-Proof.
-  intros Hn. split.
-  - destruct (hmat_sysloc_wide md s0 (2 ^ 30)) as (e & He & HL & HF & _ & _). exists e.
-    split; [exact He|]. split; [rewrite HL; reflexivity|]. split; [rewrite HF; reflexivity|].
-    apply (hmat_sysloc_wide_step md c s0 (2 ^ 30) Hn). reflexivity.
-  - destruct (hmat_sysloc_wide md s0 (2 ^ 32)) as (e & He & HL & _ & HC & _). exists e.
-    split; [exact He|]. split; [rewrite HL; reflexivity|]. split; [rewrite HC; reflexivity|].
-    apply (hmat_sysloc_wide_step md c s0 (2 ^ 32) Hn). reflexivity.
-Qed.
+Lemma hmat_sysloc_refuses_step md md' s lt dt mts unit ni nt bs :
+  ni * nt < 2 ^ 64 -> 2 ^ 32 <= 32 + 4 * ni + 4 * nt + 2 * (ni * nt) ->
+  add_step (hmat_addition md) md' s (SL [SA 2; SA lt; SA dt; SA mts; SA unit; SA ni; SA nt; SL bs]) = None.
+Proof. intros Hp Hbig. unfold add_step. rewrite (hmat_sysloc_refuses md s lt dt mts unit ni nt bs Hp Hbig). reflexivity. Qed.
 
 (* ---------- the walk instance ---------- *)
 Lemma hmat_addition_self md s o e : hmat_addition md s o = Some e -> N.of_nat (length (a_bytes e)) < 2 ^ 32 ->
@@ -279,7 +247,7 @@ Proof.
            exists 0; cbn [hmat_addition] in H; apply hm_Some_inj in H; subst e; cbn [hmat_add a_bytes]; rewrite mem_prox_spine;
            apply wf_sd_u16_u16_u32; reflexivity
        | hmat_addition _ _ (SL (SA 2 :: _)) = _ => (* system locality *)
-           exists 1; destruct (hmat_sysloc_shape _ _ _ _ _ _ _ _ _ _ H) as (sl & cnt & _ & _ & _ & _ & _ & Hb);
+           exists 1; destruct (hmat_sysloc_shape _ _ _ _ _ _ _ _ _ _ H) as (sl & cnt & _ & _ & _ & _ & _ & Hb & Hl32);
            rewrite Hb in *; pose proof (sysloc_bytes_length sl) as HL; rewrite sysloc_spine in *;
            apply wf_sd_u16_u16_u32; [reflexivity|rewrite HL; exact Hfit|];
            rewrite HL, Nat2N.id; rewrite !app_length, !length_le; reflexivity
@@ -289,6 +257,29 @@ Proof.
            unfold msc_len, hm_len; rewrite !app_length, !length_le, length_hm_words; lia
        end.
 Qed.
+
+(* since the repair 2e6aec4 every accepted HMAT structure is shorter than 2^32 bytes, so the instance is unconditional *)
+Lemma hmat_addition_fits md s o e : hmat_addition md s o = Some e -> N.of_nat (length (a_bytes e)) < 2 ^ 32.
+Proof.
+  intros H. pose proof H as H0. unfold hmat_addition in H0. break_sx H0; clear H0.
+  all: match type of H with
+       | hmat_addition _ _ (SL (SA 1 :: _)) = _ =>
+           cbn [hmat_addition] in H; apply hm_Some_inj in H; subst e; cbn [hmat_add a_bytes]; rewrite mem_prox_spine;
+           rewrite !app_length, !length_le, length_repeatN; cbn; change (2 ^ 32) with 4294967296; lia
+       | hmat_addition _ _ (SL (SA 2 :: _)) = _ =>
+           destruct (hmat_sysloc_shape _ _ _ _ _ _ _ _ _ _ H) as (sl & cnt & _ & _ & _ & _ & _ & Hb & Hl32);
+           rewrite Hb, <- (sysloc_bytes_length sl); exact Hl32
+       | hmat_addition _ _ (SL (SA 3 :: _)) = _ =>
+           destruct (hmat_msc_shape _ _ _ _ _ _ _ _ _ _ _ H) as (handles & attrs & Hlen & Hle & Hb); rewrite Hb;
+           unfold hm_len in Hle; rewrite !app_length, !length_le, length_hm_words; change (2 ^ 32) with 4294967296; lia
+       end.
+Qed.
+
+Lemma hmat_addition_self' md s o e : hmat_addition md s o = Some e -> exists ty, self_describing H_u16_u16_u32 (a_bytes e) ty.
+Proof. intros H. exact (hmat_addition_self md s o e H (hmat_addition_fits md s o e H)). Qed.
+
+Definition hmat_walk (md : mode) : walktable :=
+  {| wt_table := hmat_table md; wt_ehdr := H_u16_u16_u32; wt_self := hmat_addition_self' md; wt_new_empty := hmat_new_empty |}.
 
 Definition hmat_walk_fit (md : mode) : walktable_fit :=
   {| wf_table := hmat_table md; wf_ehdr := H_u16_u16_u32; wf_self := hmat_addition_self md; wf_new_empty := hmat_new_empty |}.
@@ -323,6 +314,7 @@ Print Assumptions hmat_msc_refuses.
 Print Assumptions hmat_msc_refuses_step.
 Print Assumptions hmat_sysloc_exact.
 Print Assumptions hmat_sysloc_product_refuses.
-Print Assumptions hmat_sysloc_not_refused.
+Print Assumptions hmat_sysloc_refuses.
 Print Assumptions hmat_length_exact.
 Print Assumptions hmat_tiles.
+Print Assumptions hmat_addition_fits.
